@@ -14,8 +14,9 @@ def run_sequence(formats, fobjs, reqs, via_command=False):
 
     shared = DefaultArgsParser()
     evs = []
-    for fi, lenient, toks in reqs:
-        evs.append(L.event(formats[fi - 1], fobjs[fi - 1], toks, lenient, parser=shared))
+    for k, (fi, lenient, toks) in enumerate(reqs):
+        # command-string and argv form alternate: both kinds of raw arguments must survive a parse untouched
+        evs.append(L.event(formats[fi - 1], fobjs[fi - 1], toks, lenient, parser=shared, form="string" if k % 2 == 0 else "argv"))
     return evs
 
 
@@ -82,7 +83,7 @@ def replay(ctx, path):
 
     shared = DefaultArgsParser()
     for (fi, lenient, toks), f in zip(c["reqs"], formats):
-        evs.append(L.event(f, L.build_format(f, c["formats"] == "soup"), toks, lenient, parser=shared))
+        evs.append(L.event(f, L.build_format(f, c["formats"] == "soup"), toks, lenient, parser=shared, form="string" if len(evs) % 2 == 0 else "argv"))
     ctx.count()
     ctx.nontriv(1)
     ctx.nontriv(2)
